@@ -25,7 +25,7 @@ def main(argv):
     env.assert_persim_from_repo()
     mod = importlib.import_module("checks." + prop.lower())
     ctx = Ctx(prop, tier, shard, nshards, seed, group, ngroups)
-    ctx.call_variants = bool(getattr(mod, "CALL_VARIANTS", False))
+    ctx.call_variants = int(getattr(mod, "CALL_VARIANTS", 0))
     status = {"ok": True}
     try:
         if hasattr(mod, "run_shard"):
